@@ -1156,6 +1156,10 @@ func c12EmptySlice(s *an.Sym) bool {
 		}
 	case s.Kind == an.KInit:
 		return c12FreshCell.MatchString(s.Cell)
+	case s.Kind == an.KPure && len(s.Args) == 0 && strings.HasPrefix(s.Name, "zerofield"):
+		// a field never assigned in a struct value built on the path (accumulator kept in a parameter object /
+		// method receiver: `c := collector{...}; c.add(...)`): its zero value, i.e. the nil slice
+		return true
 	}
 	return false
 }
